@@ -32,22 +32,26 @@ from .replay import ensure_repo_on_path
 
 PROP = "C16"
 
-TIERS = {
-    "quick": {
-        "bytes": [dict(MaxLen=5, MaxN=4, DelimSet=1, FeedSet=1, MaxFeed=1, Kinds='{"byte"}'),
-                  dict(MaxLen=5, MaxN=4, DelimSet=1, FeedSet=1, MaxFeed=1, Kinds='{"obj"}')],
-        "text": [dict(EncSet=e, MaxChars=4, MaxCuts=2, MaxSends=3) for e in (1, 2, 5)],
-        "rand_bytes": 4000, "rand_text": 3000, "nvar": 3, "judge_max": 1500, "procs": 8,
-    },
-    "thorough": {
-        "bytes": [dict(MaxLen=6, MaxN=4, DelimSet=2, FeedSet=2, MaxFeed=1, Kinds='{"byte"}'),
-                  dict(MaxLen=6, MaxN=4, DelimSet=2, FeedSet=2, MaxFeed=1, Kinds='{"obj"}'),
-                  dict(MaxLen=4, MaxN=5, DelimSet=3, FeedSet=2, MaxFeed=2, Kinds='{"byte", "obj"}')],
-        "text": [dict(EncSet=e, MaxChars=4, MaxCuts=3, MaxSends=4) for e in (1, 2, 5)]
-        + [dict(EncSet=0, MaxChars=5, MaxCuts=1, MaxSends=2)],
-        "rand_bytes": 40000, "rand_text": 24000, "nvar": 5, "judge_max": 6000, "procs": 12,
-    },
-}
+def tiers(tier: str, seed: int) -> dict:
+    if tier == "quick":
+        # strings / texts of full length: one slice of four, chosen by the seed (seeds 0..3 cover all)
+        sl = dict(NSlices=4, Slice=seed % 4)
+        return {
+            "bytes": [dict(MaxLen=5, MaxN=4, DelimSet=1, FeedSet=1, MaxFeed=1, Kinds='{"byte"}', **sl),
+                      dict(MaxLen=5, MaxN=4, DelimSet=1, FeedSet=1, MaxFeed=1, Kinds='{"obj"}', **sl)],
+            "text": [dict(EncSet=0, MaxChars=4, MaxCuts=2, MaxSends=3, **sl)],
+            "rand_bytes": 3000, "rand_text": 2000, "nvar": 3, "judge_max": 1500, "procs": 6, "vpar": 2,
+        }
+    al = dict(NSlices=1, Slice=0)
+    return {
+        "bytes": [dict(MaxLen=6, MaxN=4, DelimSet=2, FeedSet=2, MaxFeed=1, Kinds='{"byte"}', **al),
+                  dict(MaxLen=6, MaxN=4, DelimSet=2, FeedSet=2, MaxFeed=1, Kinds='{"obj"}', **al),
+                  dict(MaxLen=4, MaxN=5, DelimSet=3, FeedSet=2, MaxFeed=2, Kinds='{"byte", "obj"}', **al)],
+        "text": [dict(EncSet=e, MaxChars=4, MaxCuts=3, MaxSends=4, **al) for e in (1, 2, 5)]
+        + [dict(EncSet=0, MaxChars=5, MaxCuts=1, MaxSends=2, **al)],
+        "rand_bytes": 30000, "rand_text": 16000, "nvar": 5, "judge_max": 6000, "procs": 12, "vpar": 4,
+    }
+
 
 BYTE_INVS = ["PropertyHolds", "ObserverTracks", "TypeOK"]
 TEXT_INVS = ["PropertyHolds", "NonEmptyOutputs"]
@@ -110,7 +114,7 @@ def _pool_call(args: tuple):
 def _get(async_results: list) -> list:
     out = []
     for r in async_results:
-        x = r.get()
+        x = r.get(timeout=3000)   # a worker that never comes back is a machinery failure
         if isinstance(x, dict) and "machinery_error" in x:
             raise RuntimeError(x["machinery_error"])
         out.append(x)
@@ -119,7 +123,7 @@ def _get(async_results: list) -> list:
 
 def main(tier: str, seed: int) -> int:
     rep = core.Report(PROP, tier, seed)
-    cfg = TIERS[tier]
+    cfg = tiers(tier, seed)
     rng = random.Random(seed)
     big = tier == "thorough"
     rep.assumptions += ASSUME
@@ -160,8 +164,8 @@ def _run(rep, cfg, rng, big, seed, seen, t0, pool) -> int:
     digests: set[bytes] = set()
     bfut, tfut = [], []
     with ThreadPoolExecutor(max_workers=len(jobs) + 2) as ex:
-        fb = ex.submit(validate, "T_ByteWrap", btraces, tag="C16-rb")
-        ft = ex.submit(validate, "T_TextWrap", ttraces, tag="C16-rt")
+        fb = ex.submit(validate, "T_ByteWrap", btraces, tag="C16-rb", par=cfg["vpar"])
+        ft = ex.submit(validate, "T_TextWrap", ttraces, tag="C16-rt", par=cfg["vpar"])
         futs = {ex.submit(run_model, **j): (kind, j) for kind, j in jobs}
         for f in as_completed(futs):
             kind, j = futs[f]
@@ -257,12 +261,13 @@ def _run(rep, cfg, rng, big, seed, seen, t0, pool) -> int:
     rep.rule = ("exhaustive: every transition of MC_C16B's state graph (state = kind, buffer, remaining chunks, "
                 "closed; all data over {0,1} up to MaxLen, all chunkings, all calls) performed once on a real "
                 "stream, and every case of MC_C16T (all width assignments, cuts, send partitions) run with "
-                f"{cfg['nvar']} instantiations by real code points; all are distinct by construction. "
+                f"{cfg['nvar']} instantiations by real code points; all are distinct by construction (quick "
+                "tier: all shorter strings / texts, and of those of full length the slice seed mod 4). "
                 "Non-trivial byte transition: the call crosses or cuts a chunk, combines buffered with new bytes, "
                 "or fails with bytes in hand; non-trivial text case: a cut inside a character / the BOM, or "
-                "several sends. Random: seeded cases (alphabet 2..256, <= 60 bytes, <= 30 calls; texts <= 40 "
-                "characters), non-trivial when at least two calls pulled data while bytes stayed buffered or "
-                "failed, resp. a cut inside a character / several sends.")
+                "several sends. Random: seeded cases (alphabet 2..256, up to 45 (thorough 90) bytes and 14 (24) "
+                "calls; texts up to 16 (40) characters), non-trivial when at least two calls pulled data while "
+                "bytes stayed buffered or failed, resp. a cut inside a character / several sends.")
     rep.extra["byte_transitions_replayed"] = nb
     rep.extra["byte_transition_outcomes"] = dict(sorted(kinds.items()))
     rep.extra["byte_disagreements_with_machine"] = len(bmis)
